@@ -352,6 +352,26 @@ theorem new_unknown_tag_status_5 :
 example : (exec demoDev (.multiple [.cls 2, .ins 1] [.readTag [.symbolic "nosuch"] 1])).2 =
     some ([0x8A, 0, 0, 0] ++ [1, 0, 4, 0] ++ [0xCC, 0, 5, 1, 0, 0]) := by decide +kernel
 
+/-! ## known finding (not repaired): string arrays larger than one reply -/
+
+def strDev : Dev :=
+  { objs := [{ cls := 2, ins := 1, attrs := [(1, { ty := .sstring, scalar := false, vals := List.replicate 10 (.str []) })] }],
+    symbols := [("zz", (2, 1, 1))] }
+
+/-- the full statement "a client following the services' definition can fragment-read any tag" fails on the
+model for a 10-element SSTRING tag at the default `MAX_BYTES`: the first reply carries 7 elements with status
+6, the continuation at the byte offset received (7) is refused with 0xFF — `reply_elements` counts a string
+element as 80 bytes.  (`end_to_end_read` holds per request; the defect is in what offsets are acceptable.) -/
+theorem client_string_array_read_fails :
+    (execSimple strDev (.readTag [.symbolic "zz", .elem 0] 10)).2.status = 6
+    ∧ ((execSimple strDev (.readTag [.symbolic "zz", .elem 0] 10)).2.vals).length = 7
+    ∧ (Client.read strDev [.symbolic "zz", .elem 0] 10).status = 255 := by decide +kernel
+
+/-- … while for fixed-size element types the generic client's read does complete (here: the 3 SINTs of `a`
+in fragments of one element, `MAX_BYTES = 1`) -/
+example : Client.read { demoDev with maxBytes := 1 } [.symbolic "a"] 3
+    = { status := 0, ty := some .sint, vals := [.int 1, .int 2, .int 3] } := by decide +kernel
+
 /-! ## non-vacuity: the hypotheses hold on a device with contents, and the pipeline computes -/
 
 example : CtxOk demoCtx = true ∧ hasRouter demoDev = true ∧ devWireOk demoDev = true
